@@ -123,6 +123,9 @@ pub fn gen_c13(seed: u64, tier: &str) -> Value {
                 }
                 _ => json!({"f": "malformed", "body": latin1(&[0xff, 0xfe, 0x00, 0xd8, 0x00]), "ctype": "application/json; charset=utf-16"}),
             };
+            // a slow host: the answer takes longer than a poll interval (1 s while the channel state is unknown, the
+            // configured interval afterwards)
+            let f = if r.chance(1, 5) { json!({"f": "stall", "ms": *r.pick(&[1200u64, 2500, 9000, 16_000, 40_000])}) } else { f };
             steps.push(json!({"t": "host_fault", "kind": kind, "fault": f}));
         }
         let mut conns = Vec::new();
